@@ -93,20 +93,12 @@ new.append(entry("C04",
         "encoding/UTO311-L0x.UnmarshalAs": INLINED_ONLY, "encoding/UTO311-L0x.UnmarshalArray": INLINED_ONLY,
         "encoding/UTO311-L0x.UnmarshalArrayElement": INLINED_ONLY,
         "encoding/UTO311-L0x.Dump": "debug hex dump (only called when debug is on): VC generation exceeds the budget (formatting loops over fmt.Sprintf without a model)",
-        "messages.UnmarshalRequest": "dispatch through a table of constructors returning `any`: the dynamic type is not statically known; decided per message type by the lemma functions of C05 where built",
-        "messages.UnmarshalResponse": "as UnmarshalRequest",
         "uhppote.(*uhppote).broadcast": INLINED_ONLY + " (inlined into GetDevices)",
-        "uhppote.(*uhppote).GetDevices": "filter-map loop over the discovery replies needs the C11 contracts (not built): VC generation explodes without an invariant",
         "uhppote.(*uhppote).ListenAddrList": "engine limitation (address of a local array element inside an unrolled loop)",
-        "uhppote.NewUHPPOTE": "loop over the caller's device list needs an invariant (C17 contracts, not built)",
         "uhppote.(*uhppote).tcpSendTo": "helper verified inlined into sendto$1, which establishes driver != nil and len(request) == 64",
         "uhppote.(*uhppote).udpSendTo": "helper verified inlined into sendto$1",
         "uhppote.(*uhppote).udpBroadcastTo": "helper verified inlined into sendto$1",
         "uhppote.(*uhppote).udpBroadcast": "helper of GetDevices (see there)",
-        "uhppote.(*ut0311).Broadcast": "real sockets and a goroutine: outside the sequential subset beyond its prefix; VC generation exceeds the budget",
-        "uhppote.(*ut0311).BroadcastTo": "real sockets: VC generation exceeds the budget (C09 typestate contracts not built)",
-        "uhppote.(*ut0311).SendTCP": "real sockets: VC generation exceeds the path budget",
-        "uhppote.(*ut0311).SendUDP": "real sockets: VC generation exceeds the path budget",
         "uhppote.(*ut0311).Listen": "goroutines and channels: outside the sequential subset",
         "types.(HHmm).before": "helper with a documented panic for foreign types: verified inlined into HHmm.Before (C16), whose callers pass time.Time or HHmm",
         "types.(HHmm).after": "as before",
@@ -127,8 +119,7 @@ new.append(entry("C04",
 
 MSGTYPES = open(os.path.join(SPEC, "message_types.txt")).read().split()
 new.append(entry("C05",
-    thorough_functions=["messages.UnmarshalRequest", "messages.UnmarshalResponse"],
-    functions=["messages.lemmaRoundTrip" + t for t in MSGTYPES] + ["messages.lemmaDecode" + t for t in MSGTYPES] +
+    functions=["messages.UnmarshalRequest", "messages.UnmarshalResponse"] + ["messages.lemmaRoundTrip" + t for t in MSGTYPES] + ["messages.lemmaDecode" + t for t in MSGTYPES] +
               ["types.lemmaRoundTrip" + t for t in ("Date", "DateTime", "HHmm", "PIN", "SerialNumber", "Version")] +
               ["types.(%s).MarshalUT0311L0x" % t for t in ("Date", "DateTime", "SystemDate", "SystemTime", "HHmm", "PIN", "SerialNumber", "Version", "MacAddress")] +
               ["types.(*%s).UnmarshalUT0311L0x" % t for t in ("Date", "DateTime", "SystemDate", "SystemTime", "HHmm", "PIN", "SerialNumber", "Version", "MacAddress")] +
@@ -138,8 +129,7 @@ new.append(entry("C05",
     pinned_file="pins_messages.json", pinned_labels=["contract"],
     replay=[{"match": "messages.lemmaDecode", "driver": "messages_decode", "pkg": "messages", "case": "all"}],
     assumptions=COMMON_ASSUME + ["bcd.* and time.* spec functions are opaque in the message-level lemmas; the facts used about them are the spec lemmas bcd.pack.inv, bcd.val2.inv, bcd.zero and time.fields.range, proved from the definitions on every run"],
-    not_decided=["the dispatchers messages.UnmarshalRequest / UnmarshalResponse are verified in the THOROUGH tier only (one case per function code of the dispatch table, several minutes of VC generation); the quick tier does not decide them",
-                 "date/time fields: the message-level lemma proves that the field is written in its BCD form at its offset and read back from the same offset (wire.date / wire.rdate ...); that reading back yields the same civil value in every time zone is the per-type statement of C13",
+    not_decided=["date/time fields: the message-level lemma proves that the field is written in its BCD form at its offset and read back from the same offset (wire.date / wire.rdate ...); that reading back yields the same civil value in every time zone is the per-type statement of C13",
                  "independence from non-field bytes is not stated as a separate lemma"],
     explanation="For each of the 65 message structs T (32 requests, 31 replies, Event, EventV6_62) the lemma function lemmaRoundTrip<T>(v) = Unmarshal(Marshal(v)) is verified with the reflective codec executed on its real body: for every in-domain v decoding succeeds and every integer/boolean/PIN/HH:mm/IPv4/address:port/MAC/version field of the result equals the field of v; lemmaDecode<T>(b) shows that an arbitrary byte string is only accepted when it is 64 bytes long and carries T's protocol id and function code."))
 
@@ -206,32 +196,36 @@ new.append(entry("C15",
 new.append(entry("C14", level="other",
     functions=["types.(HHmm).String", "types.HHmmFromString", "types.(HHmm).MarshalJSON", "types.(*HHmm).UnmarshalJSON", "types.(*ControlState).UnmarshalJSON",
                "types.(Date).MarshalJSON", "types.(*Date).UnmarshalJSON", "types.ParseDate",
-               "types.lemmaTextHHmm", "types.lemmaJSONHHmm", "types.lemmaJSONControlState", "types.lemmaJSONDate"] +
+               "types.lemmaTextHHmm", "types.lemmaJSONHHmm", "types.lemmaJSONControlState", "types.lemmaJSONDate", "types.lemmaJSONDateTime"] +
               ["types.Parse%sAddr" % r for r in ROLES] + ["types.lemma%sAddrText" % r for r in ROLES],
     scope=[r"^types\."],
     pinned_file="pins_types.json", pinned_labels=["contract", "macro"],
     replay=[{"match": "HHmm", "driver": "types_text", "pkg": "types", "case": "hhmm"},
+            {"match": "lemmaJSONDateTime", "driver": "types_text", "pkg": "types", "case": "datetime"},
             {"match": "types.", "driver": "types_text", "pkg": "types", "case": "all"}],
     assumptions=["encoding/json on strings is an abstract quoting (spec/json.spec): json.Marshal of a Go string yields bytes that are a JSON string with that content, json.Unmarshal of such bytes into a *string yields the content; bytes that are not a JSON string give an error or an arbitrary string",
-                 "regular expressions of the form ^...$ with fixed-width digit groups are modelled exactly; strconv.Atoi of an all-digit string is its value; fmt.Sprintf(%02d:%02d) and time.Format(2006-01-02) yield the digit groups; time model as for C13"],
+                 "regular expressions of the form ^...$ with fixed-width digit groups are modelled exactly; strconv.Atoi of an all-digit string is its value; fmt.Sprintf(%02d:%02d) and time.Format(2006-01-02) yield the digit groups; time model as for C13",
+                 "zone designations (layout element MST of time.Format / time.Parse; spec/time.spec): every designation Format writes is 'UTC', an alphabetic abbreviation or sign+hours (both accepted by the layout MST) or sign+hours+minutes such as +0330 (rejected by MST, accepted by -0700); the abbreviation in force at an instant, looked up at that instant's civil time, yields the offset in force (Go documents this as imperfect in the repeated hour of a zone that uses one abbreviation for both offsets); a numeric designation states the offset in force. Bounded conformance: replay driver types_text/datetime, 33 zones x every hour of 3 years, thorough tier"],
     bounded=[],
     not_decided=["Card, TimeProfile, Task, Weekdays, Segments (their UnmarshalJSON delegates to encoding/json's reflective struct/map decoding, which has no contract in the engine)",
-                 "DateTime JSON (zone abbreviation handling inside time.Parse), Version (fmt.Sscanf), MacAddress (net.ParseMAC), TaskType by name and CardFormat (case-folding regular-expression rewriting), PIN (variable-width decimal text), SystemTime text form",
+                 "DateTime JSON for values held in a zone other than the process zone or UTC (their abbreviation means nothing to the decoding process: the instant is not kept - by design of the format), and the reject side of DateTime JSON; Version (fmt.Sscanf), MacAddress (net.ParseMAC), TaskType by name and CardFormat (case-folding regular-expression rewriting), PIN (variable-width decimal text), SystemTime text form",
                  "JSON forms of the address types (the text round trip is decided: lemma<Role>AddrText)"],
-    explanation="Decided for the leaf types whose parser is repository code over a string: HH:mm (String/HHmmFromString and JSON: accepted exactly for dd:dd with hours <= 24, minutes <= 59, not 24:mm with mm != 0; everything else of that JSON-string form rejected; decode(encode(v)) == v), door control state JSON (exactly the three names; anything else rejected), Date JSON and text (blank <-> zero value, impossible dates rejected, civil value kept whenever the day exists in the zone), and the four address types' text forms. Level 'other': the property lists more types than contracts can reach."))
+    explanation="Decided for the leaf types whose parser is repository code over a string: HH:mm (String/HHmmFromString and JSON: accepted exactly for dd:dd with hours <= 24, minutes <= 59, not 24:mm with mm != 0; everything else of that JSON-string form rejected; decode(encode(v)) == v), door control state JSON (exactly the three names; anything else rejected), Date JSON and text (blank <-> zero value, impossible dates rejected, civil value kept whenever the day exists in the zone), DateTime JSON (decode(encode(v)) is the same instant, to the second, for every v held in the process zone or in UTC, in every process zone - under the assumed model of zone designations), and the four address types' text forms. Level 'other': the property lists more types than contracts can reach."))
 
 
 new.append(entry("C09", level="other",
-    functions=["uhppote.(*ut0311).BroadcastTo", "uhppote.(*ut0311).SendUDP", "uhppote.(*ut0311).SendTCP"],
+    functions=["uhppote.(*ut0311).BroadcastTo", "uhppote.(*ut0311).SendUDP", "uhppote.(*ut0311).SendTCP", "uhppote.(*ut0311).Broadcast", "uhppote.(*ut0311).Broadcast$1"],
     scope=[r"^uhppote\.\(\*ut0311\)\."],
     pinned_file="pins_uhppote.json", pinned_labels=["contract", "macro"],
     assumptions=["assumed contracts of package net and sync.Mutex as events on a ghost socket typestate (spec/net.spec, spec/lib/net.contracts, spec/lib/sync.contracts): what the kernel does on a deadline, a dial or a close is outside",
                  "codec.Dump (debug hex dump) is a trusted contract: returns a string, does not panic",
-                 "the acceptance callback handed to BroadcastTo is a pure predicate of the datagram"],
-    not_decided=["the wall-clock bound itself ('returns within the configured timeout plus scheduling slack'): a statement about time, not about calls",
-                 "goroutine termination and 'no more goroutines than before' (ut0311.Broadcast, ut0311.Listen): goroutines are outside the sequential subset",
-                 "ut0311.Broadcast: write deadline, no read deadline, time.Sleep(timeout) - not under contract"],
-    explanation="Decided clauses, as socket/lock typestate of the three sequential driver methods BroadcastTo, SendUDP, SendTCP: exactly one socket is opened per call (none on an early failure) and it is closed on every return path (`closed`); every blocking write and read happens while a deadline is set on the socket, and the dial is given a deadline (`guarded`, `dial`); the process-wide send lock is taken iff the bind port is non-zero and released on every path (`lock`); the only exits of the receive loop are an accepted datagram or a read error (`accepted`, loop invariant), i.e. the call never gives up early on its own. Level 'other': the timing and goroutine clauses of the property cannot be expressed as function contracts."))
+                 "the acceptance callback handed to BroadcastTo is a pure predicate of the datagram",
+                 "termination of the receive loops uses the ghost variant sock.pending (assumed contract of the read calls): only finitely many datagrams reach a socket before its deadline or its close, a successful read consumes one, a failed read none",
+                 "time.Sleep is an event on a ghost clock (spec/lib/time.contracts); a read without a deadline on a socket that the caller closes on return is taken to fail once the socket is closed"],
+    not_decided=["the wall-clock bound itself ('returns within the configured timeout plus scheduling slack'): a statement about time, not about calls - decided instead: every blocking call is under a deadline or bounded by the Close on return, every receive loop has a variant, discovery sleeps for exactly the configured timeout",
+                 "'no more goroutines than before' as a count over a history of calls; decided instead per call: at most one goroutine is started, its body contains no operation that can block for ever (channel send/receive, select: obligations of class `block`) and its loop has a variant",
+                 "the two goroutines of ut0311.Listen (they end when the caller closes the listener, not with a call)"],
+    explanation="Decided clauses, as socket/lock typestate of the three sequential driver methods BroadcastTo, SendUDP, SendTCP: exactly one socket is opened per call (none on an early failure) and it is closed on every return path (`closed`); every blocking write and read happens while a deadline is set on the socket, and the dial is given a deadline (`guarded`, `dial`); the process-wide send lock is taken iff the bind port is non-zero and released on every path (`lock`); the only exits of the receive loop are an accepted datagram or a read error (`accepted`, loop invariant), i.e. the call never gives up early on its own, and the loop ends (`decreases sock.pending`: a round that neither returns nor consumes a datagram fails the variant). Discovery (ut0311.Broadcast): the same socket/lock typestate, the write under a write deadline, exactly one reply collector started (none for set-address), the caller held by time.Sleep for exactly the configured timeout (`waits`), the socket closed on return - which is what ends the collector; the collector (goroutine body Broadcast$1, attribute `goroutine`) has a loop variant and no channel operation that could block for ever. Level 'other': the wall-clock and goroutine-count clauses of the property cannot be expressed as function contracts."))
 
 
 new.append(entry("C10", level="other",
